@@ -136,6 +136,12 @@ func (r *registry) mkPay(kind, tok string) any {
 		return map[string]any(nil)
 	case "nilslice":
 		return []string(nil)
+	case "erresult":
+		// a Result-style prep function that answers with an error Result and a nil
+		// Go error. Its value is nil; whether the error state travels on is the
+		// library's choice - but exec and post are told the same thing, and it is
+		// not wrapped into another Result on the way
+		return flyt.NewErrorResult(r.mkErr("sentinel", tok+"X"))
 	case "reslist":
 		// a payload that is a list of Results (what a batch node's post receives and
 		// may well hand on): to a non-batch node it is a value like any other
@@ -161,6 +167,8 @@ func payDesc(kind, tok string) string {
 		return "WR(" + tok + ")"
 	case "reslist":
 		return "[" + tok + " nil]"
+	case "erresult":
+		return "nil"
 	}
 	return tok
 }
@@ -1118,6 +1126,15 @@ func ctorOpts(n *NodeSpec) []any {
 		}
 		one := baseOpts(&NodeSpec{Settings: []Setting{s}}, "opt")
 		for _, o := range one {
+			if s.Nest {
+				own := o
+				o = func(b *flyt.BaseNode) {
+					// another node, with settings of its own, is built meanwhile
+					flyt.NewNode(flyt.WithMaxRetries(9), flyt.WithWait(7*time.Hour), flyt.WithMaxRetries(8), flyt.WithWait(6*time.Hour), flyt.WithMaxRetries(7))
+					flyt.NewBatchNode(flyt.WithMaxRetries(9), flyt.WithBatchConcurrency(13), flyt.WithWait(7*time.Hour), flyt.WithBatchErrorHandling(false))
+					own(b)
+				}
+			}
 			if s.Plain {
 				out = append(out, (func(*flyt.BaseNode))(o))
 			} else {
@@ -1219,6 +1236,9 @@ func (h *harness) buildFunc(n *NodeSpec) flyt.Node {
 		v, err := h.prep(n, s)
 		if err != nil {
 			return flyt.Result{}, err
+		}
+		if er, ok := v.(flyt.Result); ok && er.IsError() {
+			return er, nil // (payload kind erresult)
 		}
 		return flyt.NewResult(v), nil
 	}
